@@ -1,6 +1,7 @@
 (* C04R (to be merged into C04 / C02) - the statement-level model of gdstk's OASIS reader `read_oas` accepts the
    specification.  Theorem-only file: every proof is `exact <lemma>`; Print Assumptions under each. *)
 Require Import Base OasisInt OasisSpec OasisRead OasisReadProofs Generated.
+From Coq Require Import Lia.
 Local Open Scope N_scope.
 
 (* tie (generated): the record, repetition, point-list and data-type codes of today's source are the literals the
@@ -127,3 +128,24 @@ Print Assumptions reader_point_list.
 Theorem reader_end : forall d st L, srel d st -> cov_finalize d = Some L -> finish st = Ok (view L).
 Proof. exact finish_ok. Qed.
 Print Assumptions reader_end.
+
+(* tie (generated): the record switch of read_oas as it stands in library.cpp today - its case labels grouped by shared body -
+   is the dispatch of the reader model: the same 35 record ids, nothing else handled (any other id is UnsupportedRecord) *)
+Theorem read_oas_switch_as_modelled :
+  read_oas_case_groups = [[0]; [1]; [2]; [3]; [4]; [5]; [6]; [7]; [8]; [9]; [10]; [11; 12]; [13; 14]; [15]; [16]; [17; 18]; [19]; [20];
+                          [21]; [22]; [23; 24; 25]; [26]; [27]; [28; 29]; [30]; [31]; [32]; [33]; [34]].
+Proof. reflexivity. Qed.
+Print Assumptions read_oas_switch_as_modelled.
+
+Theorem read_oas_model_dispatch_default : forall st s id,
+  ~ In id (concat read_oas_case_groups) -> h_record st id s = H_stop C_unsupported st s.
+Proof.
+  intros st s id H. assert (Hgt : 34 < id).
+  { destruct (N.ltb_spec 34 id) as [Hl|Hl]; [exact Hl|]. exfalso. apply H.
+    assert (E : existsb (N.eqb id) (concat read_oas_case_groups) = true).
+    { destruct id as [|p]; [reflexivity|]. do 6 (try (destruct p as [p|p|])); try reflexivity; lia. }
+    apply existsb_exists in E. destruct E as (x & Hx & Ex). apply N.eqb_eq in Ex. subst x. exact Hx. }
+  unfold h_record. destruct id as [|p]; [lia|].
+  do 6 (try (destruct p as [p|p|])); try reflexivity; lia.
+Qed.
+Print Assumptions read_oas_model_dispatch_default.
